@@ -437,6 +437,7 @@ func cases(seed int64, nTrace, nSeq, everyIndex int) []caseIn {
 	)
 	// cancellation at every index of a few short scripts
 	for i := 0; i < everyIndex; i++ {
+		next = 1
 		s := genScript(r, 3, 3, &next)
 		if s[0].Fail {
 			s[0] = passIn{Reqs: []int{next}}
@@ -447,6 +448,7 @@ func cases(seed int64, nTrace, nSeq, everyIndex int) []caseIn {
 		}
 	}
 	for i := 0; i < nTrace; i++ {
+		next = 1
 		s := genScript(r, 5, 6, &next)
 		c := caseIn{Class: "trace-random", Script: s, RescanUS: 5000 + r.Intn(20000), CancelAfter: never}
 		switch x := r.Intn(100); {
@@ -466,6 +468,7 @@ func cases(seed int64, nTrace, nSeq, everyIndex int) []caseIn {
 		if capacity == 100 && r.Intn(3) == 0 {
 			maxSize = 260 // passes bigger than the buffer, as a /24 in `sx arp --live`
 		}
+		next = 1
 		s := genScript(r, 4, maxSize, &next)
 		c := caseIn{Class: "seq-random", Script: s, Cap: capacity, RescanUS: 5000 + r.Intn(15000), CancelAfter: never}
 		switch x := r.Intn(100); {
